@@ -58,9 +58,27 @@ def wf_macro_stmt(o) -> bool:
 
 
 @spec
+def same_kind_plain(s, parallel: bool) -> bool:
+    """s is a block that is not a subcircuit and has the given kind"""
+    return isinstance(s, BlockStatement) and s._parallel == parallel and not s._subcircuit
+
+
+@spec
+def nf(o) -> bool:
+    """normal form (C10): no block directly inside a block of the same kind (a subcircuit block may sit in a
+    sequential block).  Jaqal text cannot express such nesting, and expand_macros splices it away - so a result
+    in normal form is both printable and a fixed point of the splice."""
+    if isinstance(o, LoopStatement):
+        return nf(o._statements)
+    if isinstance(o, BlockStatement):
+        return isinstance(o._statements, list) and forall_range(len(o._statements), lambda k: nf(o._statements[k]) and not same_kind_plain(o._statements[k], o._parallel))
+    return True
+
+
+@spec
 def wf_macros(m) -> bool:
     """a macro table: names to Macro objects with list parameters and well-formed bodies"""
-    return isinstance(m, dict) and forall_keys(m, lambda k: isinstance(dict_lookup(m, k), Macro)
+    return isinstance(m, dict) and forall_keys(m, lambda k: isinstance(dict_lookup(m, k), Macro) and dict_lookup(m, k)._name == k
                                               and isinstance(dict_lookup(m, k)._parameters, list) and wf_stmt(dict_lookup(m, k)._body))
 
 
@@ -74,10 +92,13 @@ class ExpLoop:
     def ensures(self, loop, result):
         return type_is(result, LoopStatement) and same(result._iterations, loop._iterations)
 
+    def ensures_normal_form(self, loop, result):
+        return wf_stmt(result) and nf(result)
+
     raises_only = ("JaqalError",)
 
 
-@assumed("core.algorithm.expand_macros:MacroExpander.visit_BlockStatement", props=["C04"])
+@contract("core.algorithm.expand_macros:MacroExpander.visit_BlockStatement", props=["C04", "C10"])
 class ExpBlock:
     """block kind, subcircuit annotation and count are carried over unchanged"""
 
@@ -90,8 +111,12 @@ class ExpBlock:
     def ensures_subcircuit(self, block, result):
         return result._subcircuit == block._subcircuit and same(result._iterations, block._iterations)
 
+    def ensures_normal_form(self, block, result):
+        return wf_stmt(result) and nf(result)
+
     def inv_1(self, block, new_statements, _k):
-        return True
+        return isinstance(new_statements, list) and forall_range(len(new_statements), lambda j: wf_stmt(new_statements[j]) and nf(new_statements[j])
+                                                                   and not same_kind_plain(new_statements[j], block._parallel))
 
     raises_only = ("JaqalError",)
 
@@ -103,7 +128,7 @@ class ExpGate:
                 and isinstance(gate._parameters, dict) and isinstance(gate._gate_def, AbstractGate))
 
     def ensures(self, gate, result):
-        return True
+        return wf_stmt(result) and nf(result)
 
     raises_only = ("JaqalError",)
 
@@ -129,6 +154,9 @@ class ReplaceGate:
     def ensures_native(gate, macros, result):
         return implies(not has_key(macros, gate._gate_def._name), same(result, gate))
 
+    def ensures_normal_form(gate, macros, result):
+        return wf_stmt(result) and nf(result)
+
     def raises_JaqalError_when(gate, macros):
         return has_key(macros, gate._gate_def._name) and len(gate._parameters) != len(dict_lookup(macros, gate._gate_def._name)._parameters)
 
@@ -144,7 +172,7 @@ class ReplMacroAssumed:
         return type_is(self, GateReplacer) and isinstance(macro, Macro)
 
     def ensures(self, macro, result):
-        return isinstance(result, BlockStatement)
+        return isinstance(result, BlockStatement) and wf_stmt(result) and nf(result)
 
     modifies = ("self.parameters",)
     raises_only = ("JaqalError",)
